@@ -385,7 +385,7 @@ def merge_dedup_rule(ctx):
     repo = ctx.repo
     mesh_ci = repo.cls(MESH)
     f = mesh_ci.methods["Merge"]
-    r = ctx.rule("R20.10", "Mesh.Merge: nodes coincide <=> same merged number (a point shared by three meshes included; a sheet and its copy one unit above it are not glued), merged coordinates follow the mapping, one merged node per distinct point", min_instances=2)
+    r = ctx.rule("R20.10", "Mesh.Merge: nodes coincide <=> same merged number (a point shared by three meshes included; a sheet and its copy one unit above it are not glued), merged coordinates follow the mapping, one merged node per distinct point; the pieces of a partition give the global mesh back", min_instances=3)
     P = lambda x, y, z=0: (Q(x), Q(y), Q(z))
     scenarios = {
         # (the second mesh carries a fourth node not used by its triangle: the meshes have 3, 4, 3 nodes, so a slip in the
@@ -395,9 +395,16 @@ def merge_dedup_rule(ctx):
         "a triangle in the plane z = 0, the same triangle at z = 1, and a neighbour of the first in the plane": [[P(0, 0), P(1, 0), P(0, 1)], [P(0, 0, 1), P(1, 0, 1), P(0, 1, 1)], [P(0, 0), P(0, 1), P(-1, 0)]],
     }
 
-    def mk_mesh(pts):
+    # the pieces of a partition keep the GLOBAL node numbering: the rows of the nodes a piece does not hold are zero
+    # ('Global in its indexing only', Mesh.coord); merging the pieces must give the global mesh back
+    G = [P(1, 1), P(2, 1), P(1, 2), P(2, 2)]
+    Z = P(0, 0)
+    pieces = {"pts": [[G[0], G[1], G[2], Z], [Z, G[1], G[2], G[3]], [G[0], G[1], G[2], Z]], "conn": [[0, 1, 2], [1, 3, 2], [0, 1, 2]]}
+    scenarios["the pieces of a partition (global numbering, zero rows for the nodes a piece does not hold; no node at the origin)"] = pieces
+
+    def mk_mesh(pts, conn=(0, 1, 2)):
         c = XArray((len(pts), 3), [v for p in pts for v in p])
-        g = SimpleNamespace(connect=XArray((1, 3), [0, 1, 2], "i"), Ncoords=len(pts))
+        g = SimpleNamespace(connect=XArray((1, 3), list(conn), "i"), Ncoords=len(pts))
         # (inDim as the Mesh property computes it: the highest coordinate that is not identically zero)
         inDim = 3 if any(p[2] != 0 for p in pts) else 2 if any(p[1] != 0 for p in pts) else 1
         return SimpleNamespace(coord=c, coordGlob=c, dict_groupElem={"TRI3": g}, groupElem=g, Nn=len(pts), dim=2, inDim=inDim)
@@ -455,7 +462,11 @@ def merge_dedup_rule(ctx):
         created.clear()
         I = Interp(repo, max_steps=20_000_000)
         I.call_hook = hook
-        ms = [mk_mesh(p) for p in meshes_pts]
+        conns = [[0, 1, 2]] * 3
+        if isinstance(meshes_pts, dict):
+            conns, meshes_pts = meshes_pts["conn"], meshes_pts["pts"]
+        partial = conns != [[0, 1, 2]] * 3
+        ms = [mk_mesh(p, cn) for p, cn in zip(meshes_pts, conns)]
         try:
             # (the removal of duplicated elements is another step of Merge, not followed here)
             out = I.call_function(f, [ms], {"return_mapping": True, "constructUniqueElements": False})
@@ -465,7 +476,8 @@ def merge_dedup_rule(ctx):
         mapping = [[int(x) for x in XArray.from_nested(m).data] for m in out[1]]
         conn, newc = created.get("TRI3", (None, None))
         bad = None
-        flat = [(i, j) for i in range(3) for j in range(len(meshes_pts[i]))]
+        # (for the pieces of a partition only the nodes a piece holds are points of the piece)
+        flat = [(i, j) for i in range(3) for j in range(len(meshes_pts[i])) if not partial or j in conns[i]]
         for a in range(len(flat)):
             for b in range(a + 1, len(flat)):
                 (i, j), (k, l) = flat[a], flat[b]
@@ -473,13 +485,13 @@ def merge_dedup_rule(ctx):
                 same_nb = mapping[i][j] == mapping[k][l]
                 if bad is None and same_pt != same_nb:
                     bad = f"node {j} of mesh {i} and node {l} of mesh {k} {'coincide' if same_pt else 'are distinct points'} but get merged numbers {mapping[i][j]} and {mapping[k][l]}"
-        distinct = len({p for m in meshes_pts for p in m})
+        distinct = len({meshes_pts[i][j] for i, j in flat})
         if bad is None and newc is not None:
             if newc.shape[0] != distinct:
                 bad = f"the merged mesh has {newc.shape[0]} nodes for {distinct} distinct points"
             else:
-                for i in range(3):
-                    for j in range(len(meshes_pts[i])):
+                for i, j in flat:
+                    if True:
                         if bad is None and tuple(newc[mapping[i][j], k] for k in range(3)) != meshes_pts[i][j]:
                             bad = f"merged coordinates of mapping[{i}][{j}] are not those of the node"
         if bad is None and any(len(mapping[i]) != len(meshes_pts[i]) for i in range(3)):
@@ -487,11 +499,11 @@ def merge_dedup_rule(ctx):
         if bad is None and conn is not None:
             # the merged connectivity: the triangle of mesh i is (mapping[i][0], mapping[i][1], mapping[i][2]), in mesh order
             rows = [[int(conn[e, k]) for k in range(3)] for e in range(conn.shape[0])]
-            want_rows = [[mapping[i][k] for k in range(3)] for i in range(3)]
+            want_rows = [[mapping[i][k] for k in conns[i]] for i in range(3)]
             if rows != want_rows:
                 bad = f"merged connectivity {rows}, expected each mesh's element renumbered by its own mapping {want_rows} (connectivity shifted by another offset than the mapping)"
         if bad:
-            r.fail(f.qualname, "merge-dedup" if label.startswith("three") else f"merge-dedup:{label[:24]}", f.file, f.lineno, "Mesh.Merge", f"{label}: {bad}: the merged numbering is not 'one node per distinct point' (pairs not closed transitively, or coincidence decided on fewer than the three coordinates); merging the parts of a partition does not give the global mesh back")
+            r.fail(f.qualname, "merge-dedup" if label.startswith("three") else "merge-dedup:pieces-of-a-partition" if partial else f"merge-dedup:{label[:24]}", f.file, f.lineno, "Mesh.Merge", f"{label}: {bad}: the merged numbering is not 'one node per distinct point' (pairs not closed transitively, or coincidence decided on fewer than the three coordinates); merging the parts of a partition does not give the global mesh back")
         else:
             r.ok(f"{label}: one merged node per distinct point, mapping consistent")
 
